@@ -7,6 +7,7 @@ import (
 	"io"
 	"log/slog"
 	"net"
+	"os"
 	"sync"
 	"sync/atomic"
 	"time"
@@ -29,6 +30,7 @@ type echoServer struct {
 	mu       sync.Mutex
 	held     map[string]chan struct{} // id -> release
 	push     map[string]bool          // id -> the server sends a message of its own before the response
+	conns    []*memnet.Conn           // client ends handed out by the dialer
 	received map[string]chan struct{} // id -> closed when the request reached the server
 }
 
@@ -71,6 +73,15 @@ func newEcho() *echoServer {
 	return e
 }
 
+func (e *echoServer) lastClientConn() *memnet.Conn {
+	e.mu.Lock()
+	defer e.mu.Unlock()
+	if len(e.conns) == 0 {
+		return nil
+	}
+	return e.conns[len(e.conns)-1]
+}
+
 // hold makes the server keep the response to id back; returns (arrived, release).
 func (e *echoServer) hold(id string) (<-chan struct{}, func()) {
 	rel := make(chan struct{})
@@ -91,10 +102,11 @@ const (
 	planWhileServerHolds
 	planDeadline
 	planServerPush
+	planWriteErrorAfterFlush
 	nPlans
 )
 
-var planNames = []string{"none", "cancel-before-send", "cancel-at-send-loaded", "cancel-between-send-and-recv", "cancel-while-server-holds", "deadline", "server-push-before-response"}
+var planNames = []string{"none", "cancel-before-send", "cancel-at-send-loaded", "cancel-between-send-and-recv", "cancel-while-server-holds", "deadline", "server-push-before-response", "write-error-reported-after-the-request-was-delivered"}
 
 type result struct {
 	id   string
@@ -128,6 +140,19 @@ func call(c *core.Ctx, cl *kmipclient.Client, srv *echoServer, ctl *hooks.Contro
 			cancel()
 			c.Count("cancel.while-server-holds", 1)
 		}()
+	case planWriteErrorAfterFlush:
+		// the request reaches the server, but the Write that carried it reports an error (a write deadline firing after
+		// the flush): the call fails or is retried, and the answer to the delivered request must reach nobody else
+		if cc := srv.lastClientConn(); cc != nil {
+			var used atomic.Bool
+			cc.SetInject(func(op string, idx int) *memnet.Fault {
+				if op == "write" && !used.Swap(true) {
+					return &memnet.Fault{Err: &net.OpError{Op: "write", Net: "mem", Err: os.ErrDeadlineExceeded}, AfterAll: true}
+				}
+				return nil
+			})
+			c.Count("write_errors_after_flush", 1)
+		}
 	case planServerPush:
 		srv.mu.Lock()
 		srv.push[id] = true
@@ -179,7 +204,16 @@ func verdict(c *core.Ctx, r result, history *[]string, mu *sync.Mutex) {
 }
 
 func dial(srv *echoServer) *kmipclient.Client {
-	cl, err := kmipclient.Dial("mem", kmipclient.WithDialerUnsafe(func(context.Context) (net.Conn, error) { return srv.L.Dial() }), kmipclient.EnforceVersion(kmip.V1_4))
+	cl, err := kmipclient.Dial("mem", kmipclient.WithDialerUnsafe(func(context.Context) (net.Conn, error) {
+		cc, err := srv.L.Dial()
+		if err != nil {
+			return nil, err
+		}
+		srv.mu.Lock()
+		srv.conns = append(srv.conns, cc)
+		srv.mu.Unlock()
+		return cc, nil
+	}), kmipclient.EnforceVersion(kmip.V1_4))
 	if err != nil {
 		panic("harness: dial: " + err.Error())
 	}
@@ -267,9 +301,9 @@ func Spec() *core.Spec {
 		Rule: "every call carries a unique id that a scripted in-memory server echoes, so each returned response identifies the request it answers (no ambiguity to search over). " +
 			"Directed sequences on one client: each call under a cancellation plan {none, before send, at the hooked point after loading the tx channel, at the hooked point between send and recv with the response held back and released late, " +
 			"while the server holds the response, 2 ms deadline}, always followed by further calls; stress: 2..32 goroutines sharing one client, 6 calls each with seeded plans (race detector on). " +
-			"a plan where the server writes a server-to-client request ahead of the response; distinct = distinct call histories (ids, plans, outcomes in completion order)",
+			"a plan where the server writes a server-to-client request ahead of the response; a plan where the Write that delivered the request reports an error; distinct = distinct call histories (ids, plans, outcomes in completion order)",
 		Assumptions: []string{"cancellation instants are placed by the verif hooks client.send.loaded and client.roundtrip.sent, which sit where the scheduler may preempt anyway"},
-		Required:    []string{"calls", "calls_returning_response", "calls_returning_error", "cancel.before-send", "cancel.at-send-loaded", "cancel.between-send-and-recv", "cancel.while-server-holds", "hook.client.roundtrip.sent", "stress_rounds", "server_pushes", "calls.server-push-before-response"},
+		Required:    []string{"calls", "calls_returning_response", "calls_returning_error", "cancel.before-send", "cancel.at-send-loaded", "cancel.between-send-and-recv", "cancel.while-server-holds", "hook.client.roundtrip.sent", "stress_rounds", "server_pushes", "calls.server-push-before-response", "write_errors_after_flush"},
 		Shards:      func(string) int { return 8 },
 		Families: []core.Family{
 			{Name: "directed", N: func(tier string) int {
